@@ -378,6 +378,9 @@ def build(spec, hooks=True):
         b.motor, b.last = b.elements[0], b.elements[-1]
     for f_ in post:
         f_()
+    if spec.get('touch_constants') is not None and spec['touch_constants'] % 2:
+        # ... and once more after the solver, the control and its rules have been built
+        touch_constants(b, dict(spec, touch_constants=spec['touch_constants'] + 1))
     if spec.get('forget_load'):
         b.captures = []
         saved, b.spec = b.spec, dict(spec, schedule=[{'op': 'badrun', 'how': 'noload'}])
